@@ -318,6 +318,24 @@ class LFDomain:
                 return self.out(path, self.and_const(path, x, ((1 << w) - 1) & ~y, w, s))
             raise Unsupported("&^ symbolic")
         if op == "^":
+            if type(x) is int and x == 0:
+                return self.out(path, LF.of(y))
+            if type(y) is int and y == 0:
+                return self.out(path, LF.of(x))
+            kx, ky = self.expand(LF.of(x)).key(), self.expand(LF.of(y)).key()
+            if kx == ky:
+                return 0
+            # u ^ (u ^ t) = t  (the xor-select / xor-swap idiom  b ^ (m & (a ^ b))  after the fork on the mask m)
+            for u, ku, v in ((x, kx, y), (y, ky, x)):
+                vf = LF.of(v)
+                if len(vf.t) == 1 and vf.c == 0:
+                    (a, k), = vf.t.items()
+                    d = self.atoms[a]
+                    if k == 1 and d["kind"] == "bit" and d.get("bk") == "xor":
+                        if self.expand(d["x"]).key() == ku:
+                            return self.out(path, d["y"])
+                        if self.expand(d["y"]).key() == ku:
+                            return self.out(path, d["x"])
             xlo, xhi = self.rng(path, LF.of(x))
             ylo, yhi = self.rng(path, LF.of(y))
             if xlo >= 0 and ylo >= 0:
